@@ -93,8 +93,10 @@ class Gen:
             opd = ['flatten_lazy']
         elif c < 0.9:
             opd = ['levels', r.choice([0, 1, 2, 3]), r.choice(['list', 'list', 'tuple', 'int', 'str'])]
-        else:
+        elif c < 0.95:
             opd = ['merge', r.choice(['dict', 'dict', 'odict'])]
+        else:
+            opd = ['merge_fn', r.choice(['dict', 'dict', 'odict'])]      # the function merge(target, init=...)
         if opd[0] == 'levels' and opd[1] == 0:
             cont = 'list'
         return {'target': target, 'gen': cont == 'gen', 'op': opd}
@@ -148,6 +150,8 @@ def run_once(case, r, spec):
     k = case['op'][0]
     if k == 'levels':
         res = glom.flatten(tgt, levels=case['op'][1], init=INITS[case['op'][2]][1])
+    elif k == 'merge_fn':
+        res = glom.merge(tgt, init=INITS[case['op'][1]][1])
     else:
         res = glom.glom(tgt, spec)
     if k == 'flatten_lazy' or (k == 'levels' and not isinstance(res, (list, tuple, str, int, dict)) and res is not None and res is not tgt):
